@@ -12,79 +12,97 @@ CHECK_FILE = "searcher::Searcher::check_file"
 
 
 def r1(ctx):
-    hir = ctx.anchor_hir(CMP_AT)
-    # direction: ascending flag -> comparison, otherwise reversed
-    dir_if = None
-    for x in walk_exprs(hir):
-        if x["k"] == "If" and "orderings" in render(x["c"]) and "e" in x:
-            dir_if = x
-    ok = False
-    if dir_if is not None:
-        c = peel(dir_if["c"], methods=False)
-        neg = c["k"] == "Un" and c["op"] == "!"
-        t, e = render(peel_result(dir_if["t"])), render(peel_result(dir_if["e"]))
-        asc, desc = (e, t) if neg else (t, e)
-        ok = asc == "comparison" and desc == "comparison.reverse()" or \
-            (not asc.endswith(".reverse()") and desc == asc + ".reverse()")
-    ctx.obligation(ok)
-    ctx.covered("direction arm of Criteria::cmp_at (asc -> comparison, desc -> reverse)", 2, distinct_keys=["asc", "desc"],
-                sample=render(dir_if) if dir_if else None, exhaustive=True)
-    if not ok:
-        ctx.violation("cmp_at/direction", ctx.where(CMP_AT, dir_if), "ascending keys must use the comparison as is and descending keys its reverse")
-    # type dispatch: numeric -> cmp_at_numbers, datetime -> cmp_at_datetimes, else direct
-    disp = {}
-    for x in walk_exprs(hir):
-        if x["k"] == "If":
-            c = render(peel(x["c"], methods=False))
-            for pred in ("contains_numeric", "contains_datetime"):
-                if pred in c and not c.startswith("!"):
-                    callee = [y["m"] for y in walk_exprs(x["t"]) if y["k"] == "MCall" and y["m"].startswith("cmp_at_")]
-                    disp[pred] = callee
-                    if pred == "contains_datetime" and "e" in x:
-                        disp["else"] = [y["m"] for y in walk_exprs(x["e"]) if y["k"] == "MCall" and y["m"].startswith("cmp_at_")]
-    ok = disp.get("contains_numeric") == ["cmp_at_numbers"] and disp.get("contains_datetime") == ["cmp_at_datetimes"] \
-        and disp.get("else") == ["cmp_at_direct"]
-    ctx.obligation(ok)
-    ctx.covered("key-type dispatch of cmp_at", 3, distinct_keys=list(disp), sample=disp)
-    if not ok:
-        ctx.violation("cmp_at/dispatch", ctx.where(CMP_AT), "numeric keys must compare by value, date keys chronologically, others as strings; found %s" % disp)
-    # the three comparators compare self with other at index i, in this order
-    for fn, parse in (("util::Criteria::cmp_at_direct", None), ("util::Criteria::cmp_at_numbers", "parse_filesize"),
-                      ("util::Criteria::cmp_at_datetimes", "parse_datetime")):
-        h = ctx.anchor_hir(fn)
-        locs = Locals(h)
-        cmps = [c for c in walk_exprs(h) if c["k"] == "MCall" and c["m"] == "cmp"]
-        ok = False
-        if len(cmps) == 1:
-            l = render(locs.chase(cmps[0]["recv"]))
-            r_ = render(locs.chase(cmps[0]["args"][0]))
-            ok = "self.values[i]" in l and "other.values[i]" in r_ and "other" not in l and "self" not in r_
-            if parse:
-                ok = ok and parse in l and parse in r_
-        ctx.obligation(ok)
-        if not ok:
-            ctx.violation("cmp_at/%s" % short(fn, 1), ctx.where(fn), "%s must compare self.values[i] with other.values[i] (in this order)%s" %
-                          (short(fn, 1), " through " + parse if parse else ""))
-    ctx.covered("comparators (direct, numbers, datetimes): operand order and parser", 3, distinct_keys=["direct", "numbers", "datetimes"])
-    # lexicographic combination: first non-equal key decides, keys visited from index 0
+    """the ordering of two buffer keys: `<Criteria as Ord>::cmp` evaluated (finite interpreter, crate calls interpreted; the
+    key-type predicates, parse_filesize and parse_datetime answer by contract) for every key kind (text, numeric, date) x
+    direction x all orderings of two values, for two-key combinations and for keys of different length"""
+    import interp
+    from extra import _expr_dict
     h = ctx.anchor_hir(CMP)
-    calls = [c for c in walk_exprs(h) if c["k"] == "MCall" and c["m"] == "cmp_at"]
-    rng = [x for x in walk_exprs(h) if x["k"] == "Struct" and short(x.get("res"), 1) == "Range"]
-    start = None
-    if rng:
-        fs = {f["name"]: f["e"] for f in rng[0]["fields"]}
-        start = peel(fs["start"]).get("v") if "start" in fs else None
-    early = any(x["k"] == "If" and "Equal" in render(x["c"]) and "!=" in render(x["c"]) and
-                any(y["k"] == "Ret" for y in walk_exprs(x["t"])) for x in walk_exprs(h))
-    # the same as a lazy chain: (0..n).map(|i| self.cmp_at(other, i)).find(|c| *c != Equal)
-    lazy = any(c["k"] == "MCall" and c["m"] in ("find", "skip_while", "find_map") and "cmp_at" in render(c["recv"]) and c["args"] and
-               "Equal" in render(c["args"][0]) and ("!=" in render(c["args"][0]) or ".ne(" in render(c["args"][0]) or
-                                                    (c["m"] == "skip_while" and "==" in render(c["args"][0]))) for c in walk_exprs(h))
-    ok = len(calls) == 1 and start == 0 and (early or lazy)
-    ctx.obligation(ok)
-    ctx.covered("lexicographic key combination in Criteria::cmp", 1, distinct_keys=[CMP])
-    if not ok:
-        ctx.violation("cmp/lexicographic", ctx.where(CMP), "Criteria::cmp must visit keys from index 0 and return at the first non-equal key")
+    ps = ctx.prog.fns[CMP]["params"]
+    n = 0
+    seen = set()
+
+    def bad(key, msg):
+        if key not in seen:
+            seen.add(key)
+            ctx.violation(key, ctx.where(CMP), msg)
+
+    def call(node, recv, args, it, env):
+        callee = str(node.get("callee", ""))
+        m = node.get("m")
+        if m in ("contains_numeric", "contains_datetime") and isinstance(recv, dict) and "__kind" in recv:
+            return (recv["__kind"] in (("numeric", "numeric+date") if m == "contains_numeric" else ("date", "numeric+date")),)
+        if callee.endswith("parse_filesize") and args and isinstance(args[0], str):
+            return (interp.some(int(args[0])) if args[0].isdigit() else interp.NONE,)
+        if callee.endswith("parse_datetime") and args and isinstance(args[0], str):
+            if args[0].startswith("d") and args[0][1:].isdigit():
+                return (interp.V("Result::Ok", [(int(args[0][1:]), int(args[0][1:]))]),)
+            return (interp.V("Result::Err", ["no date"]),)
+        # the default instant of an unparsable date (1970-01-01 00:00:00, however it is built) is the integer 0
+        if "NaiveDate" in callee or m in ("and_hms_opt", "and_hms", "and_time"):
+            return (interp.some(0) if (m or callee).endswith("_opt") else 0,)
+        if callee.endswith("Local::now") or callee.endswith("Utc::now"):
+            return (0,)
+        if m in ("naive_local", "naive_utc") and recv == 0:
+            return (0,)
+        if m in ("with_year", "with_month", "with_day", "with_hour", "with_minute", "with_second", "with_nanosecond") and recv == 0:
+            return (interp.some(0),)
+        return None
+
+    def key(kind):
+        d = _expr_dict(interp)
+        d["__kind"] = kind
+        return d
+
+    def crit(kinds, values, asc):
+        return {"fields": [key(k) for k in kinds], "values": list(values), "orderings": list(asc)}
+
+    def run(a, b):
+        r = interp.Interp(call=call, prog=ctx.prog, max_steps=40000).run(h, {ps[0]["id"]: a, ps[1]["id"]: b})
+        if isinstance(r, interp.V) and r.name.startswith("Ordering::") or (isinstance(r, interp.V) and "Ordering::" in r.name):
+            return {"Less": -1, "Equal": 0, "Greater": 1}[r.name.rsplit("::", 1)[-1]]
+        raise interp.Undecided("not an Ordering: %r" % (r,))
+    sgn = lambda x: (x > 0) - (x < 0)
+    domains = {"text": (["10", "2", "b"], lambda v: v), "numeric": (["10", "2", "x"], lambda v: int(v) if v.isdigit() else 0),
+               "date": (["d10", "d2", "d7"], lambda v: int(v[1:])),
+               # an expression with a numeric and a date part (`size + modified`) is ordered by value, as the numeric kind
+               "numeric+date": (["10", "2", "x"], lambda v: int(v) if v.isdigit() else 0)}
+    try:
+        for kind, (vals, keyf) in domains.items():
+            for asc in (True, False):
+                for x in vals:
+                    for y in vals:
+                        got = run(crit([kind], [x], [asc]), crit([kind], [y], [asc]))
+                        kx, ky = keyf(x), keyf(y)
+                        want = sgn((kx > ky) - (kx < ky)) * (1 if asc else -1)
+                        n += 1
+                        ok = got == want
+                        ctx.obligation(ok)
+                        if not ok:
+                            sub = "direction" if got == -want and want != 0 else ("dispatch" if kind != "text" else "cmp_at_direct")
+                            bad("cmp_at/%s" % (sub if sub != "dispatch" else ("cmp_at_numbers" if kind.startswith("numeric") else "cmp_at_datetimes")),
+                                "a %s key in %s order: comparing `%s` with `%s` gives %s, expected %s (numeric keys compare by value, date keys chronologically, "
+                                "others as text; descending keys reverse the comparison; self is compared with other in this order)" %
+                                (kind, "ascending" if asc else "descending", x, y, got, want))
+        # lexicographic combination from key 0; the shorter key list is smaller when all common keys agree
+        for (a, b, want, what) in (((["text", "numeric"], ["a", "2"], [True, True]), (["text", "numeric"], ["a", "10"], [True, True]), -1, "first keys equal, second decides"),
+                                   ((["text", "numeric"], ["b", "2"], [True, True]), (["text", "numeric"], ["a", "10"], [True, True]), 1, "first key decides"),
+                                   ((["text", "numeric"], ["a", "2"], [True, False]), (["text", "numeric"], ["a", "10"], [True, False]), 1, "second key descending"),
+                                   ((["numeric", "text"], ["2", "z"], [False, True]), (["numeric", "text"], ["10", "a"], [False, True]), 1, "first key descending decides"),
+                                   ((["text", "text"], ["a", "b"], [True, True]), (["text", "text"], ["a", "b"], [True, True]), 0, "all keys equal"),
+                                   ((["text"], ["a"], [True]), (["text", "text"], ["a", "b"], [True, True]), -1, "fewer keys")):
+            got = run(crit(*a), crit(*b))
+            n += 1
+            ok = got == want
+            ctx.obligation(ok)
+            if not ok:
+                bad("cmp/lexicographic", "Criteria::cmp must visit keys from index 0 and return at the first non-equal key (%s): %s vs %s gives %s, expected %s" % (what, a[1], b[1], got, want))
+    except interp.Undecided as e:
+        ctx.obligation(False)
+        bad("cmp_at/unreadable", "cannot evaluate the comparison of two buffer keys: %s" % e)
+    ctx.covered("Criteria::cmp evaluated: 3 key kinds x 2 directions x 9 value pairs, 6 key combinations", n,
+                distinct_keys=["text", "numeric", "date", "asc", "desc", "lexicographic"], exhaustive=True)
+    ctx.floor(n, 50, "comparisons of buffer keys", CMP)
 
 
 NUMERIC_FN_EXCEPTIONS = {
